@@ -9,7 +9,7 @@ for m in sorted((V / "seeded").glob("*/meta.json")):
     fires = d.get("checks_that_fire", {})
     others = sorted(k for k in fires if k != d["property"])
     first = d.get("first_contact")
-    rows.append(f"| `{m.parent.name}` | {d['property']} | {(d.get('summary') or '')[:150].replace('|', '/')} | {d.get('caught_by') or '**missed**'} | {', '.join(others) or '–'} | {first or ('rule written after seeing it' if 'r2' not in m.parent.name else '')} |")
+    rows.append(f"| `{m.parent.name}` | {d['property']} | {(d.get('summary') or '')[:150].replace('|', '/')} | {d.get('caught_by') or '**missed**'} | {', '.join(others) or '–'} | {first or 'round 1: rule written or adjusted after seeing the change'} |")
 table = "| seeded change | property | what was changed | caught by (own check) | also fires | first contact |\n|---|---|---|---|---|---|\n" + "\n".join(rows)
 p = V / "DESIGN.md"
 s = p.read_text()
